@@ -106,7 +106,10 @@ def build_dens(spec):
         dd = pm.DomainDefinition(*rot)
         decoy = pm.DensityFilter(pm.Signal('xd', np.linspace(0.0, 1.0, dd.nel)), domain=dd, radius=spec["radius"])
         decoy.response()
-    m = pm.DensityFilter(pm.Signal('x', x), domain=d, radius=spec["radius"],
+    rad = spec["radius"]
+    if float(rad) == int(rad) and (nelx + nely + int(rad)) % 2 == 0:
+        rad = int(rad)          # a whole-number radius handed over as a Python int (radius=2): same filter
+    m = pm.DensityFilter(pm.Signal('x', x), domain=d, radius=rad,
                          nonpadding=(np.array(npd, dtype=int) if npd is not None else None))
     return m, d
 
